@@ -191,17 +191,14 @@ void mzd_row_add(mzd_t *M, rci_t sourcerow, rci_t destrow) {
 
 void mzd_row_clear_offset(mzd_t *M, rci_t row, rci_t coloffset) {
   wi_t const startblock = coloffset / m4ri_radix;
-  word temp;
-  word *truerow = mzd_row(M, row);
-  /* make sure to start clearing at coloffset */
-  if (coloffset % m4ri_radix) {
-    temp = truerow[startblock];
-    temp &= __M4RI_RIGHT_BITMASK(m4ri_radix - coloffset);
-  } else {
-    temp = 0;
-  }
-  truerow[startblock] = temp;
-  for (wi_t i = startblock + 1; i < M->width; ++i) { truerow[i] = 0; }
+  word *truerow         = mzd_row(M, row);
+  word const mask_end   = M->high_bitmask;
+  /* keep the columns before coloffset; the excess bits of the last word may belong to a parent matrix */
+  word keep = (coloffset % m4ri_radix) ? __M4RI_LEFT_BITMASK(coloffset % m4ri_radix) : 0;
+  if (startblock == M->width - 1) keep |= ~mask_end;
+  truerow[startblock] &= keep;
+  for (wi_t i = startblock + 1; i < M->width - 1; ++i) { truerow[i] = 0; }
+  if (startblock < M->width - 1) truerow[M->width - 1] &= ~mask_end;
 
   __M4RI_DD_ROW(M, row);
 }
